@@ -61,7 +61,7 @@ var pkgs = []string{"a", "b", "B", "c"}
 var unseenPkgs = []string{"z1", "z2"}
 
 var versionPool = map[string][]string{
-	"NPM":   {"1.0.0", "v1.0.0", "1.0.0-alpha", "2.0.0", "1.2.3", "not-a-version", "1.0.0+b"},
+	"NPM":   {"1.0.0", "v1.0.0", "1.0.0-alpha", "2.0.0", "1.2.3", "not-a-version", "1.0.0+b", "2.0.0-beta.1", "2.0.0-beta.2", "0.9.0", "3.0.0-rc.1"},
 	"Maven": {"1.0", "1.0.0", "1.0-alpha", "2.0", "1.0-SNAPSHOT", "1.0.1"},
 	"PyPI":  {"1.0", "1.0.0", "1.0a1", "2.0", "1.0.post1", "1.0.1"},
 }
